@@ -25,7 +25,15 @@ def gen_case(rng):
             e["interval"] = max(e["interval"], 2)
     else:
         adds.insert(rng.randint(0, len(adds)), {"name": 99, "interval": 1, "weight": rng.choice([1, 3, 64]), "min": 0})
-    return {"cycles": cycles, "adds": adds, "steps": rng.randint(6, 14), "seed": rng.randint(1, 2**31)}
+    case = {"cycles": cycles, "adds": adds, "steps": rng.randint(6, 14), "seed": rng.randint(1, 2**31)}
+    if cycles >= 2 and rng.random() < 0.3:
+        # the documented dynamic use: the consumer of the step generator changes a weight between two moves of the LAST step
+        case["edit"] = {"after": rng.randint(0, cycles - 2), "name": rng.choice(adds)["name"], "weight": rng.choice([0, 0, 0, 1, 64])}
+        tbl, _ = model_table(case)
+        due = [e for e in tbl if (case["steps"] - 1) % e["interval"] == 0]
+        if sum(case["edit"]["weight"] if e["name"] == case["edit"]["name"] else e["weight"] for e in due) == 0:
+            del case["edit"]      # the property's side condition: the due weights are not all zero
+    return case
 
 
 def model_table(case):
@@ -63,6 +71,31 @@ def infer_oracle(names, due, cycles):
     return fidx, free
 
 
+def check_edited_step(c, tbl, due, st, edit, dist):
+    """last step of a case whose consumer changed one weight after slot `after`: every later free slot must request the CURRENT weights"""
+    why = []
+    names, marks, calls = st["names"], st.get("slot_marks", []), st["calls"]
+    if not due:
+        return ["nothing due but attempted"] if names else []
+    dist["edited_steps"] = dist.get("edited_steps", 0) + 1
+    if len(names) != c["cycles"]:
+        why.append(f"{len(names)} attempts for {c['cycles']} cycles")
+    lo = 0
+    for j, n in enumerate(names):
+        hi = marks[j] if j < len(marks) else len(calls)
+        weights = [(edit["weight"] if (e["name"] == edit["name"] and j > edit["after"]) else e["weight"]) for e in due]
+        tot = sum(weights)
+        for call in calls[lo:hi]:
+            if call.get("p") is not None and tot > 0:
+                ks = [p * tot for p in call["p"]]
+                if len(ks) != len(due) or any(abs(x - w) > 1e-9 * max(1, tot) for x, w in zip(ks, weights)):
+                    why.append(f"slot {j}: free choice requested p={[round(x, 4) for x in call['p']]} but the weights in force are {weights} (one was changed after slot {edit['after']})")
+                elif weights[[e["name"] for e in due].index(n)] == 0:
+                    why.append(f"slot {j}: move {n} chosen freely with weight 0")
+        lo = hi
+    return why
+
+
 def entry_lit(e):
     return f"{{| ename := {e['name']}; einterval := {e['interval']}; eweight := {e['weight']}; emin := {e['min']}%nat |}}"
 
@@ -97,6 +130,12 @@ def run(res: C.Result):
             due = [e for e in tbl if s % e["interval"] == 0]
             dist["steps"] += 1
             why = []
+            edited = c.get("edit") if s == c["steps"] - 1 else None
+            if edited:
+                why += check_edited_step(c, tbl, due, st, edited, dist)
+                if why:
+                    res.fail("schedule:weights-changed-during-step", "; ".join(why[:3]), {"input": c, "step": s, "observed": st})
+                continue
             if not due:
                 dist["steps_nothing_due"] += 1
                 if names:
